@@ -62,7 +62,7 @@ class SymmetricSubstitutionModel(AbstractSubstitutionModel, ABC):
         S = sqrt_pi @ Q @ sqrt_pi_inv
         e, v = self.eigen(S)
         offset = branch_lengths.dim() - e.dim() + 1
-        return (
+        matrices = (
             (sqrt_pi_inv @ v).reshape(
                 e.shape[:-1] + (1,) * offset + sqrt_pi_inv.shape[-2:]
             )
@@ -73,6 +73,13 @@ class SymmetricSubstitutionModel(AbstractSubstitutionModel, ABC):
             @ (v.inverse() @ sqrt_pi).reshape(
                 e.shape[:-1] + (1,) * offset + sqrt_pi_inv.shape[-2:]
             )
+        )
+        # P(0) is exactly the identity (e.g. the invariant rate category): the round-off
+        # of the decomposition would otherwise be amplified by per-node rescaling
+        return torch.where(
+            (branch_lengths == 0.0).unsqueeze(-1).unsqueeze(-1),
+            torch.eye(matrices.shape[-1], dtype=matrices.dtype, device=matrices.device),
+            matrices,
         )
 
     def eigen(self, Q: torch.Tensor) -> torch.Tensor:
